@@ -75,7 +75,7 @@ type cfgStats struct {
 	Config      string `json:"config"`
 	States      int    `json:"states"`
 	Transitions int    `json:"transitions"`
-	MaxDepth    int    `json:"max_depth"`     // deepest level at which a new state appeared
+	MaxDepth    int    `json:"max_depth"` // deepest level at which a new state appeared
 	Levels      int    `json:"levels_expanded"`
 	Closed      bool   `json:"frontier_emptied"` // every event was applied in every reachable state
 	DepthDone   bool   `json:"depth_bound_completed"`
@@ -344,14 +344,13 @@ func main() {
 		}
 		fmt.Printf("full-alphabet phase: all sequences of length<=2 over %d events, %d sequences over %d configs\n", len(alpha), pairs, len(configs))
 	}
-	seqTotal += pairs
 	fmt.Printf("all-sequences phase: %d core events, length<=%d (%d on the non-deep configs), %d sequences over %d configs, completed=%v\n",
 		len(core), seqLen, seqLen-1, seqTotal, len(configs), seqDone)
 
 	c.Cov["states"] = states
 	c.Cov["transitions"] = transitions
 	c.Cov["max_depth"] = maxDepth
-	c.Cov["traces_validated_against_impl"] = bfsTraces + seqTotal
+	c.Cov["traces_validated_against_impl"] = bfsTraces + seqTotal + pairs
 	c.Cov["bfs_traces"] = bfsTraces
 	c.Cov["all_sequences_traces"] = seqTotal
 	c.Cov["all_sequences_per_config"] = seqPer
